@@ -95,8 +95,13 @@ def uf_table(m, name):
     return {"rows": [], "else": None}
 
 
-def concretize_inputs(args: dict, m):
-    out = {"args": {}, "ufs": {}}
+def concretize_inputs(args: dict, m, abstract_log=()):
+    out = {"args": {}, "ufs": {}, "calls": []}
+    for fq, res, raised in abstract_log:
+        try:
+            out["calls"].append({"target": fq, "result": conc(res, m), "raised": raised})
+        except Exception as e:
+            out["calls"].append({"target": fq, "result": {"__t": "error", "v": str(e)}, "raised": raised})
     for k, v in args.items():
         try:
             out["args"][k] = conc(v, m)
